@@ -29,8 +29,9 @@ ASSUMPTIONS = [
     "only meaningful (and only injected) for tensor_method()",
 ]
 
-FAULTS_EVALUATE = ["drop", "extra", "nontensor", "dim", "dim0", "order"]
-FAULTS_METHOD = ["drop", "extra", "nontensor", "dim", "dim0", "order", "mode", "ordering", "name", "positional", "same_object"]
+FAULTS_EVALUATE = ["drop", "extra", "extra_target", "extra_known", "nontensor", "dim", "dim0", "order"]
+FAULTS_METHOD = ["drop", "extra", "extra_target", "extra_known", "nontensor", "dim", "dim0", "order", "mode", "ordering", "name", "positional",
+                 "same_object"]
 ALLOWED = {"TypeError", "ValueError", "UndefinedReferenceError", "UnusedFormatError", "IncorrectDimensionsError"}
 
 
@@ -163,6 +164,19 @@ def apply_fault(case, inputs, formats):
         return inputs, formats, f"argument {n} dropped", True, False
     if kind == "extra":
         n = "zz" + str(f["pick"] % 7)
+        inputs[n] = empty_tensor((2,), "d")
+        return inputs, formats, f"extra argument {n}", True, False
+    if kind == "extra_target":
+        # an extra argument spelled like the assignment's target: a tensor of exactly the output's shape and format
+        oname = case["target"][0]
+        inputs[oname] = empty_tensor(C.tensor_dims(asg, case["sizes"], oname), formats[oname])
+        return inputs, formats, f"extra argument named like the target {oname}", True, False
+    if kind == "extra_known":
+        # an extra argument spelled like an index of the assignment or like 'self' / 'kwargs' / a back-end keyword
+        pool = sorted(set(X.indexes_of(tree)) | set(case["target"][1])) + ["self", "backend", "output_format", "args", "kwargs"]
+        n = pool[f["pick"] % len(pool)]
+        if n in inputs or n == case["target"][0]:
+            return inputs, formats, "", False, False
         inputs[n] = empty_tensor((2,), "d")
         return inputs, formats, f"extra argument {n}", True, False
     if kind == "nontensor":
